@@ -54,7 +54,22 @@ def run(unit, em):
                 caller = name
                 allowed = caller in RELEASERS or (cn == 'disposeOfLeafNode' and caller == 'constructMTBDD') or \
                     (cn.startswith('Delete') and caller in RELEASERS) or ('mtbdd_node.hh' in fn.file)
-                if allowed:
+                if allowed and cn == 'disposeOfLeafNode' and caller == 'constructMTBDD':
+                    # the sink may only be disposed of when nobody references it
+                    facts, _ = known_facts(c)
+                    zero = False
+                    for pol, atom in facts:
+                        a = strip(atom)
+                        if pol is True and a is not None and a['k'] == 'BinaryOperator' and a.get('op') == '==':
+                            l, r = strip(a['ch'][0]), strip(a['ch'][1])
+                            for x, y in ((l, r), (r, l)):
+                                if x is not None and y is not None and x['k'] == 'CallExpr' and cname(x) in ('GetLeafRefCnt', 'GetInternalRefCnt') and y.get('v') == 0:
+                                    zero = True
+                    if zero:
+                        em.ok(c, unit.text(c, 60), 'unused sink disposed of only when its reference count is 0', 'R8')
+                    else:
+                        em.violation(c, unit.text(c, 60), 'the sink leaf comes from the shared leaf table; disposing of it without testing that its reference count is 0 frees a leaf other MTBDDs still use', 'R8')
+                elif allowed:
                     em.ok(c, unit.text(c, 60), 'called from %s' % caller, 'R8')
                 else:
                     em.violation(c, unit.text(c, 60), '%s may only be called by the release functions (%s), not by %s: a node could be released while still referenced, or twice' % (cn, ', '.join(sorted(RELEASERS)), caller), 'R8')
@@ -121,12 +136,15 @@ def run(unit, em):
                     em.ok(reseat[0], 'operator=: release before re-seat', 'deleteMTBDD() precedes root_ = ...', 'R3b')
                 else:
                     em.violation(reseat[0], 'operator=: release before re-seat', 'root_ is overwritten on a path that did not release the old root: its nodes leak', 'R3b')
-                pos = cfg.locate(reseat[0])
-                ok2, _ = must_pass_through(cfg, pos, lambda x: x['k'] == 'ReturnStmt', lambda x: is_incr_of(x, root_field))
+                # the new root is referenced either after the release (release-then-acquire) or before it
+                # (acquire-then-release); both are accepted
+                ok2, _ = must_pass_through(cfg, cfg.locate(dels[0]), lambda x: x['k'] == 'ReturnStmt', lambda x: is_incr_of(x, root_field))
+                if not ok2:
+                    ok2, _ = must_pass_through(cfg, (cfg.entry, 0), lambda x: x is dels[0], lambda x: is_incr_of(x, root_field), start_after=False)
                 if ok2:
-                    em.ok(reseat[0], 'operator=: take reference', 'IncrementRefCnt(root_) after re-seating on every path', 'R3c')
+                    em.ok(reseat[0], 'operator=: take reference', 'a reference on the new root is taken on every path (after the release, or before it)', 'R3c')
                 else:
-                    em.violation(reseat[0], 'operator=: take reference', 'the new root is not incremented after re-seating', 'R3c')
+                    em.violation(reseat[0], 'operator=: take reference', 'no reference is taken on the new root on every path through the assignment', 'R3c')
         # ---- R4 destructor
         if fk == 'dtor':
             ok, _ = must_pass_through(cfg, (cfg.entry, 0), None, lambda x: x['k'] in ('CallExpr', 'CXXMemberCallExpr') and cname(x) == 'deleteMTBDD', start_after=False)
